@@ -521,6 +521,53 @@ pub fn check(ctx: &Ctx) -> Check {
             eval: Box::new(eval_coefficients),
         }),
         Box::new(RandomPart {
+            name: "pmf-direct",
+            rule: "the library's public coefficient `utils::hypergeometric_pmf(N, K, n, k)` itself, for population sizes N up to 12 000 chromosomes (weighted on 160..180, 1020..1040 and 2040..2060: the factorial table, the f64 range of binomials), every K <= N and n <= N drawn at random or at the edges (0, 1, N-1, N, N/2): every k in 0..=n and two values beyond against the exact u128 oracle (N <= 100) or the ratio-recurrence oracle, |got - want| <= 1e-9*want + 1e-13, exactly 0 outside the support, finite, summing to 1 within 1e-9; non-trivial = a non-degenerate support (>= 3 values of k with positive mass)",
+            cases: ctx.tier.pick(20_000, 400_000),
+            strategy: Box::new(|| {
+                (prop_oneof![4 => 0u64..=100, 3 => 100u64..=1500, 2 => 160u64..=180, 2 => 1020u64..=1040, 1 => 2040u64..=2060, 1 => 1500u64..=12_000], any::<u16>(), any::<u16>(), any::<u8>())
+                    .prop_map(|(size, a, b, edge)| {
+                        let pick = |d: u16, e: u8| -> u64 {
+                            match e % 8 {
+                                0 => 0,
+                                1 => size,
+                                2 => size.min(1),
+                                3 => size.saturating_sub(1),
+                                4 => size / 2,
+                                _ => pick_idx(d, size as usize + 1) as u64,
+                            }
+                        };
+                        (size, pick(a, edge), pick(b, edge / 8))
+                    })
+                    .boxed()
+            }),
+            eval: Box::new(|_ctx: &Ctx, case: &(u64, u64, u64)| {
+                let (size, successes, draws) = *case;
+                let want = hyper::pmf(size, successes, draws);
+                let mut sum = 0.0f64;
+                let mut positive = 0usize;
+                for k in 0..=draws + 2 {
+                    let got = guard(|| sfs_core::utils::hypergeometric_pmf(size, successes, draws, k)).map_err(|p| Failure::new(format!("hypergeometric_pmf({size}, {successes}, {draws}, {k}): {p}")))?;
+                    let w = if k <= draws { want[k as usize] } else { 0.0 };
+                    let in_support = k <= draws && k <= successes && draws - k <= size - successes;
+                    ensure!(got.is_finite() && got >= 0.0, "hypergeometric_pmf({size}, {successes}, {draws}, {k}) = {got}");
+                    if !in_support {
+                        ensure!(got == 0.0, "hypergeometric_pmf({size}, {successes}, {draws}, {k}) = {got} outside the support");
+                    } else {
+                        ensure!((got - w).abs() <= 1e-9 * w + 1e-13, "hypergeometric_pmf({size}, {successes}, {draws}, {k}) = {got:e}, the oracle gives {w:e}");
+                        if w > 1e-12 {
+                            positive += 1;
+                        }
+                    }
+                    sum += got;
+                }
+                ensure!((sum - 1.0).abs() <= 1e-9, "hypergeometric_pmf({size}, {successes}, {draws}, .) sums to {sum} over k");
+                let mut pass = Pass::new().nontrivial(positive >= 3);
+                pass.add_label(if size > 1029 { "N>1029" } else if size > 170 { "N=171..1029" } else { "N<=170" });
+                Ok(pass)
+            }),
+        }),
+        Box::new(RandomPart {
             name: "laws-random",
             rule: "random spectra (1..4 axes, lengths 1..9, integer/real/sparse non-negative values) x random admissible target: equals the direct double sum, mass, non-negativity, identity, two-step == direct, commutes with marginalization, inadmissible targets rejected; non-trivial = target strictly smaller on >=1 axis and >=2 non-zero source cells",
             cases: ctx.tier.pick(1500, 60_000),
